@@ -45,9 +45,11 @@ def cases(ctx):
         ops = [OPS[i][0] for i in seq]
         rbo = {i: (OPS[j][1] or b"") for i, j in enumerate(seq)}
         for fault_at in (None, 0, 1, 2):
-            for where in ("send", "recv"):
-                if fault_at is None and where == "recv":
+            for where in ("send", "recv", "send_timeout", "recv_timeout"):
+                if fault_at is None and where != "send":
                     continue
+                if where.endswith("timeout") and (sum(seq) + (fault_at or 0)) % 2:
+                    continue            # the timeout variants on every second sequence
                 for size in (1, 2, 1 << 31):
                     # a gap is the idle time before the call; (gap, service) also gives the time the call itself takes
                     for idle, gaps in ((0, [0, 0, 0]), (5, [1, 5, 6]), (5, [6, 6, 0]), (5, [(0, 30), (0, 0), (5, 9)])):
@@ -78,13 +80,13 @@ def run_case(case):
         dry = cs.run_pooled(c, pc, ops[:fault_at], [], [], (), clock, rbo)
         nsock = sum(1 for e in dry[1] if e[0] != 8)
         nrecv = sum(1 for e in dry[1] if e[0] == 8)
-        if where == "send":
+        if where.startswith("send"):
             # the first socket call of op fault_at that is a sendall: connect calls (if any) come first; fail the last call before recv
             dry2 = cs.run_pooled(c, pc, ops[:fault_at + 1], [], [], (), clock, rbo)
             sends = [i for i, e in enumerate([e for e in dry2[1] if e[0] != 8]) if e[0] == 7]
-            script = [0] * (sends[-1] if sends else nsock) + [(TAGS["OSError"],)]
+            script = [0] * (sends[-1] if sends else nsock) + [(TAGS["SocketTimeout" if where == "send_timeout" else "OSError"],)]
         else:
-            choices = [1 << 20] * nrecv + [(TAGS["ConnectionResetError"],)]
+            choices = [1 << 20] * nrecv + [(TAGS["SocketTimeout" if where == "recv_timeout" else "ConnectionResetError"],)]
     return c, pc, ops, script, choices, rbo, clock
 
 
